@@ -65,6 +65,7 @@ func influxTags(tags []string) string {
 // count; timer lower,upper,count,rate,mean,median,stddev,sum,sum_squares + percentile fields; histogram le.<bound>.
 func influxExpected(w *workload) (out []rec, points int) {
 	d := w.Disabled
+	var forbidden []rec
 	for i, s := range w.Series {
 		tg := influxTags(s.Tags)
 		before := len(out)
@@ -79,6 +80,9 @@ func influxExpected(w *workload) (out []rec, points int) {
 			if s.IsHist {
 				for b, cnt := range s.histF {
 					add("le."+fmtBound(b), float64(cnt), "timer.histogram")
+				}
+				for _, field := range []string{"lower", "upper", "count", "rate", "mean", "median", "stddev", "sum", "sum_squares"} {
+					forbidden = append(forbidden, rec{Name: s.Name + "\x01" + field, Tags: tg, Class: gsdSummary, Ser: i, Forbidden: true})
 				}
 				break
 			}
@@ -108,7 +112,7 @@ func influxExpected(w *workload) (out []rec, points int) {
 			points++
 		}
 	}
-	return out, points
+	return append(out, forbidden...), points
 }
 
 // lpToken reads an escaped token of the line protocol up to one of the unescaped stop bytes. A backslash escapes
